@@ -35,6 +35,7 @@ func propC20(w *World, r *Report) {
 		checkNameSlots(w, r, fn, mk)
 	}
 	checkPSName(w, r)
+	checkStaleSummary(w, r)
 	r.Floor("nameslots/once", 6)
 	r.Floor("nameslots/used", 6)
 }
@@ -462,4 +463,139 @@ func globalRegexpLiteral(w *World, g *ssa.Global) (string, bool) {
 		}
 	}
 	return "", false
+}
+
+// checkStaleSummary: MakeGlyphNames returns early when "all names are
+// present".  That summary must be computed after the pass that blanks
+// duplicate names, in a loop of its own: a flag computed in the same loop
+// that still assigns "" to slots describes the list before the blanking.
+func checkStaleSummary(w *World, r *Report) {
+	r.Rule("stalesummary: in (*Font).MakeGlyphNames the boolean that guards the early return of the name list is computed by a loop that does not assign to the list, and every loop that blanks entries (stores \"\" into it) is finished before that loop starts || fullrange: in (*cff.Outlines).makeNames every loop over the glyphs ranges over the whole o.Glyphs (a sub-slice would leave names out of the uniqueness bookkeeping)")
+	fn := w.Func("(*sfnt.Font).MakeGlyphNames")
+	if fn == nil {
+		r.Fatal("(*sfnt.Font).MakeGlyphNames does not resolve")
+		return
+	}
+	loops := naturalLoops(fn)
+	inLoop := func(b *ssa.BasicBlock) *natLoop {
+		var best *natLoop
+		for _, l := range loops {
+			if l.body[b] && (best == nil || len(l.body) < len(best.body)) {
+				best = l
+			}
+		}
+		return best
+	}
+	// loops that blank entries of a []string
+	var blanking []*natLoop
+	for _, b := range fn.Blocks {
+		for _, in := range b.Instrs {
+			st, ok := in.(*ssa.Store)
+			if !ok {
+				continue
+			}
+			if _, isIA := st.Addr.(*ssa.IndexAddr); !isIA {
+				continue
+			}
+			if c, ok := st.Val.(*ssa.Const); ok && c.Value != nil && c.Value.Kind() == constant.String && constant.StringVal(c.Value) == "" {
+				if l := inLoop(b); l != nil {
+					blanking = append(blanking, l)
+				}
+			}
+		}
+	}
+	// the flag: a bool phi at a loop head whose value decides a return of a []string
+	n := 0
+	for _, b := range fn.Blocks {
+		if len(b.Instrs) == 0 {
+			continue
+		}
+		ifi, ok := b.Instrs[len(b.Instrs)-1].(*ssa.If)
+		if !ok {
+			continue
+		}
+		ph, ok := ifi.Cond.(*ssa.Phi)
+		if !ok {
+			continue
+		}
+		if bt, ok := ph.Type().Underlying().(*types.Basic); !ok || bt.Kind() != types.Bool {
+			continue
+		}
+		// one successor returns
+		returns := false
+		for _, s := range b.Succs {
+			if len(s.Instrs) > 0 {
+				if _, ok := s.Instrs[len(s.Instrs)-1].(*ssa.Return); ok {
+					returns = true
+				}
+			}
+		}
+		if !returns {
+			continue
+		}
+		n++
+		key := r.MkKey("stalesummary", fnName(fn), "early return flag "+ph.Comment)
+		// the loop that computes the flag: the phi sits at its head, or merges its exits
+		lc := inLoop(ph.Block())
+		if lc == nil || lc.head != ph.Block() {
+			for _, pr := range ph.Block().Preds {
+				if l := inLoop(pr); l != nil {
+					lc = l
+				}
+			}
+		}
+		if lc == nil {
+			continue
+		}
+		bad := ""
+		for _, lw := range blanking {
+			if lw == lc {
+				bad = "the loop that computes " + ph.Comment + " also blanks entries of the list: a slot emptied after it was inspected is not noticed"
+			} else if lc != nil && !lw.head.Dominates(lc.head) {
+				bad = "a loop that blanks entries is not finished before " + ph.Comment + " is computed"
+			}
+		}
+		if bad == "" {
+			r.OK("stalesummary", key, w.Pos(ifi.Cond.Pos()), "computed by a separate loop after the blanking pass")
+		} else {
+			r.Fail("stalesummary", key, w.Pos(ph.Pos()), bad+": MakeGlyphNames can return a list with an empty name", nil)
+		}
+	}
+	if n == 0 {
+		r.Fail("stalesummary", r.MkKey("stalesummary", fnName(fn), "early return flag"), w.Pos(fn.Pos()), "no loop-computed flag guarding an early return found", nil)
+	}
+	// fullrange
+	mk := w.Func("(*cff.Outlines).makeNames")
+	if mk == nil {
+		r.Fatal("(*cff.Outlines).makeNames does not resolve")
+		return
+	}
+	m := 0
+	for _, b := range mk.Blocks {
+		for _, in := range b.Instrs {
+			// len(x) taken for a range loop: x must be the field load itself
+			call, ok := in.(*ssa.Call)
+			if !ok {
+				continue
+			}
+			bi, ok := call.Call.Value.(*ssa.Builtin)
+			if !ok || bi.Name() != "len" {
+				continue
+			}
+			arg := call.Call.Args[0]
+			if st, ok := arg.Type().Underlying().(*types.Slice); !ok || !strings.Contains(st.Elem().String(), "cff.Glyph") {
+				continue
+			}
+			m++
+			key := r.MkKey("fullrange", fnName(mk), "loop over the glyphs")
+			if _, isSlice := arg.(*ssa.Slice); isSlice {
+				r.Fail("fullrange", key, w.Pos(call.Pos()), "the loop ranges over a sub-slice of o.Glyphs: the glyphs left out are not entered into the set of used names, so their names can be given out again", nil)
+			} else {
+				r.OK("fullrange", key, w.Pos(call.Pos()), "ranges over all of o.Glyphs")
+			}
+		}
+	}
+	r.Floor("stalesummary", 1)
+	r.Floor("fullrange", 2)
+	_ = m
 }
